@@ -38,6 +38,14 @@ pub fn run(ctx: &Ctx) -> Outcome {
                 plans.push(vec![(k, Fate::Delay(300_000))]);
             }
         }
+        // two drops close together (two holes in one window: SACK recovery with several holes, whose
+        // pipe / lost-marking arithmetic runs over the in-flight range)
+        let pair_span = ctx.tier.pick(5, 8);
+        for k1 in 2..base.n_sends {
+            for k2 in k1 + 1..(k1 + 1 + pair_span).min(base.n_sends) {
+                plans.push(vec![(k1, Fate::Drop), (k2, Fate::Drop)]);
+            }
+        }
         // ISN placements: the wrap falls at every position of the run on either side, on the diagonal,
         // plus connection ids around the wrap
         let span = (base.n_sends as u16 + 4).min(80);
@@ -68,12 +76,12 @@ pub fn run(ctx: &Ctx) -> Outcome {
                 let mut distinct = std::collections::HashSet::new();
                 distinct.insert(ref_run.trace_hash);
                 let mut bad = None;
-                // on faulty plans only a thinned set of variants (the wrap at every 3rd position)
-                for (vi, v) in variants.iter().enumerate() {
-                    if !plan.is_empty() && vi % 3 != 0 && vi < 3 * (span as usize + 1) {
+                                for (vi, v) in variants.iter().enumerate() {
+                    // on two-drop plans only the diagonal variants (both sides wrap at the same position)
+                    if plan.len() > 1 && vi % 3 != 2 && vi < 3 * (span as usize + 1) {
                         continue;
                     }
-                    if !plan.is_empty() && vi > 3 * (span as usize + 1) + 9 {
+                    if plan.len() > 1 && vi > 3 * (span as usize + 1) + 9 {
                         break;
                     }
                     let l = run_with(scn, plan, *v);
@@ -112,7 +120,7 @@ pub fn run(ctx: &Ctx) -> Outcome {
             }
         }
         part.distinct_outcomes = 2;
-        part.bound = format!("{} fault plans (fault-free + every single drop{}) x {} (connection id, ISN A, ISN B) placements: the wrap at every one of the first {} positions on either side and on the diagonal, ids around 65535", plans.len(), if ctx.tier == Tier::Thorough { " / 300 ms delay" } else { "" }, variants.len(), span);
+        part.bound = format!("{} fault plans (fault-free + every single drop{} + every pair of drops at most {pair_span} sends apart) x {} (connection id, ISN A, ISN B) placements: the wrap at every one of the first {} positions on either side and on the diagonal, ids around 65535", plans.len(), if ctx.tier == Tier::Thorough { " / 300 ms delay" } else { "" }, variants.len(), span);
         part.samples.push(json!({"scenario": scn.name, "ids": [100, 65530, 2000], "plan": []}));
         out.parts.push(part);
     }
